@@ -28,10 +28,12 @@ TIERS = {
     "quick": {"shards": 8, "cases": 750, "timeout": 300},
     "thorough": {"shards": 16, "cases": 15000, "timeout": 3000},
 }
-FLOORS = {"quick": {"results_read_by_lines_after_their_whole_text_was_taken": 1400,
+FLOORS = {"quick": {"texts_taken_out_of_a_result_and_extended": 800,
+                    "results_read_by_lines_after_their_whole_text_was_taken": 1400,
                     "distinct_nontrivial": 1500, "values_read_back": 10000, "multi_line_outputs": 3000,
                     "wrapped_simple_lists": 1000, "one_line_containers_near_limit": 300, "python_mode_int_keys": 200},
-          "thorough": {"results_read_by_lines_after_their_whole_text_was_taken": 5600,
+          "thorough": {"texts_taken_out_of_a_result_and_extended": 3400,
+                       "results_read_by_lines_after_their_whole_text_was_taken": 5600,
                        "distinct_nontrivial": 60000, "values_read_back": 400000, "multi_line_outputs": 120000,
                        "wrapped_simple_lists": 40000, "one_line_containers_near_limit": 12000,
                        "python_mode_int_keys": 8000}}
